@@ -362,6 +362,7 @@ impl Scenario for C05 {
     let mut errored = false;
     let mut hot_counts = vec![0usize; k]; // items pushed into hot inner i
     let mut hot_done = vec![false; k];
+    let mut completed_unsub = vec![false; k];
     let mut expected: Vec<Vec<Val>> = vec![vec![]; k]; // what each inner produced while subscribed
     let mut violation: Option<Violation> = None;
     let mut trace = String::new();
@@ -504,6 +505,12 @@ impl Scenario for C05 {
         Act::InnerComplete(i) => {
           let i = *i % k;
           hot_done[i] = true;
+          // a hot inner that completes before the operator has subscribed to it
+          // (still waiting for a slot, or not handed over yet) is a completed
+          // inner stream all the same
+          if stats[i].subscribed.load(SeqCst) == 0 {
+            completed_unsub[i] = true;
+          }
           trace.push_str(&format!("i{}:complete ", i));
         }
         Act::InnerError(i) => {
@@ -599,16 +606,17 @@ impl Scenario for C05 {
         }
       }
       // completion exactly when outer and all inners have completed
-      let all_inner_done = (0..emitted).all(|i| stats[i].terminated.load(SeqCst) > 0);
+      let all_inner_done = (0..emitted).all(|i| stats[i].terminated.load(SeqCst) > 0 || completed_unsub[i]);
       let should = outer_done && all_inner_done;
       let has = evs.contains(&Ev::Complete);
       if should != has {
         // timed inners may still need the executor to run: only judge when idle
         let pending_async = w.ready_count() > 0 || w.live_timers() > 0;
         if has || !pending_async {
+          let dead_on_arrival = !has && (0..emitted).any(|i| completed_unsub[i] && stats[i].terminated.load(SeqCst) == 0);
           violation = Some(Violation {
             rule: if has { "c05.completed-early" } else { "c05.not-completed" }.into(),
-            site: site.clone(),
+            site: if dead_on_arrival { format!("{} [a hot inner completed before it was subscribed]", site) } else { site.clone() },
             detail: format!(
               "`{}`: outer done={}, inners handed over={}, terminated={:?}, subscribed={:?}; output [{}]",
               trace.trim(),
